@@ -23,7 +23,7 @@ EXPLANATION = (
     "and nothing else. C05.e (twin evaluations of one curve): the daily root expansion is the difference of the potential-depth curve "
     "at today's and yesterday's development time; the two evaluations receive the same sequence of definitions (after renaming the "
     "time variable) - in particular the restrictive-layer correction is applied to both or to neither - otherwise the difference is "
-    "negative and the roots shrink. NOT decided: canopy/harvest-index envelopes and monotonicity, root depth <= Zmax, degree-day range "
+    "negative and the roots shrink. C05.f: the stress multiplier of the harvest index reaches the adjusted index only through the limit 1 + dHI0/100 (must-pass-through; the cap on the product of the pre- and post-anthesis factors, not on one factor). NOT decided: canopy envelope, harvest-index monotonicity, root depth <= Zmax, degree-day range "
     "(numeric trajectories).")
 
 ZERO_COLS = ["dap", "gdd_cum", "z_root", "canopy_cover", "canopy_cover_ns", "biomass", "biomass_ns",
@@ -58,6 +58,7 @@ def run(chk, prog, tier):
     gdd_clamp_agreement(chk, prog, "C05.c")
     rule_d(chk, prog)
     rule_e(chk, prog)
+    rule_f(chk, prog)
     chk.assume("A-1")
     chk.exhaustive = True
 
@@ -144,6 +145,59 @@ def rule_d(chk, prog):
         else:
             chk.ok("C05.d", where, cons, "only through the water-table comparison or with no water table")
     chk.floor("C05.d", n_defs, 3, "definitions of the returned rooting depth")
+
+
+def rule_f(chk, prog):
+    """C05.f: the stress-adjusted harvest index is <multiplier> * <reference index (possibly pollination-limited)>; the multiplier that
+    reaches these products is limited to 1 + dHI0/100 on every path (must-pass-through: every definition of the multiplier either is
+    the cap or reaches the products only through the comparison with the cap whose exceed-branch assigns the cap)"""
+    hi = prog.find_func("harvest_index")
+    chk.fn(hi.key)
+    where = f"{hi.module}:{hi.qualname}"
+    flow = flow_of(hi)
+    cfg = flow.cfg
+    # the local stored into <state>.harvest_index_adj
+    st = [a for a in walk_no_nested(hi.node) if isinstance(a, ast.Assign) and isinstance(a.targets[0], ast.Attribute)
+          and a.targets[0].attr == "harvest_index_adj" and isinstance(a.value, ast.Name)]
+    if not st:
+        raise AnalysisError("harvest_index: store of the adjusted harvest index from a local not found")
+    loc = {a.value.id for a in st}
+    prods = [a for a in walk_no_nested(hi.node) if isinstance(a, ast.Assign) and isinstance(a.targets[0], ast.Name) and a.targets[0].id in loc
+             and isinstance(a.value, ast.BinOp) and isinstance(a.value.op, ast.Mult) and isinstance(a.value.left, ast.Name) and isinstance(a.value.right, ast.Name)]
+    chk.floor("C05.f", len(prods), 2, "products <multiplier> * <reference harvest index>")
+    common = set.intersection(*[{a.value.left.id, a.value.right.id} for a in prods]) if prods else set()
+    if len(common) != 1:
+        raise AnalysisError(f"harvest_index: cannot identify the stress multiplier common to the adjusted-index products ({common})")
+    M = common.pop()
+    def is_cap(e):
+        return any(isinstance(x, ast.Attribute) and x.attr == "dHI0" for x in ast.walk(e)) and not any(isinstance(x, ast.Name) and x.id == M for x in ast.walk(e))
+    tests = [n for n in cfg.live_nodes() if n.kind == "test" and isinstance(n.ast, ast.Compare) and len(n.ast.ops) == 1
+             and isinstance(n.ast.ops[0], (ast.Gt, ast.GtE)) and norm(n.ast.left) == M and is_cap(n.ast.comparators[0])]
+    good_tests = set()
+    for t in tests:
+        caps = [d for d in cfg.live_nodes() if isinstance(d.ast, ast.Assign) and isinstance(d.ast.targets[0], ast.Name) and d.ast.targets[0].id == M
+                and norm(d.ast.value) == norm(t.ast.comparators[0]) and (t.id, True) in cfg.control_deps().get(d.id, set())]
+        if caps:
+            good_tests.add(t.id)
+    for a in prods:
+        use = flow.stmt_node[id(a)]
+        for d in flow.defs_reaching(M, use):
+            da = cfg.nodes[d].ast if d != ENTRY else None
+            construct = f"{norm(da)[:60] if da is not None else M + ' (parameter)'} reaches `{norm(a)[:50]}`"
+            if isinstance(da, ast.Assign) and is_cap(da.value) and norm(da.value).replace(" ", "").startswith("1+"):
+                chk.ok("C05.f", where, construct, "the cap itself")
+                continue
+            if isinstance(da, ast.Assign) and isinstance(da.value, ast.Call) and isinstance(da.value.func, ast.Name) and da.value.func.id == "min" \
+                    and any(is_cap(x) and norm(x).replace(" ", "").startswith("1+") for x in da.value.args):
+                chk.ok("C05.f", where, construct, "min(., 1 + dHI0/100)")
+                continue
+            src = d if d != ENTRY else cfg.entry
+            if good_tests and not cfg.paths_exist_avoiding(src, use, good_tests):
+                chk.ok("C05.f", where, construct, f"only through the comparison of {M} with 1 + dHI0/100, whose exceed-branch assigns the cap")
+            else:
+                chk.violation("C05.f", where, construct, f"the multiplier {M} reaches the adjusted harvest index without passing the limit 1 + dHI0/100: the "
+                              "stress-adjusted index can exceed the reference by more than the crop's allowed maximum increase",
+                              loc=hi.loc(da) if da is not None else hi.loc())
 
 
 def rule_e(chk, prog):
